@@ -2899,7 +2899,7 @@ fn run() {
     if mode == "socket" || mode == "both" {
         let mut rng = Rng::new(params.seed ^ 0xC05_E2E);
         st.mode = "socket";
-        st.templates_left = params.get_u64("templates", params.n(1500, 8000));
+        st.templates_left = params.get_u64("templates", params.n(1500, 6000));
         st.minimised = 0;
         let stop = if mode == "both" { budget * 0.5 } else { budget * 0.92 };
         run_mode(&mut st, &mut rng, only.as_deref(), stop);
@@ -2907,7 +2907,7 @@ fn run() {
     if mode == "direct" || mode == "both" {
         let mut rng = Rng::new(params.seed ^ 0xC05_D1E);
         st.mode = "direct";
-        st.templates_left = params.get_u64("templates", params.n(4000, 30000));
+        st.templates_left = params.get_u64("templates", params.n(4000, 20000));
         st.minimised = 0;
         run_mode(&mut st, &mut rng, only.as_deref(), budget * 0.92);
     }
